@@ -660,3 +660,354 @@ Proof.
   - eapply no_livelock; eauto.
 Qed.
 Print Assumptions stop_always_answered.
+
+(* ------------------------------------------------------------------ *)
+(* 3. go is answered                                                   *)
+(* ------------------------------------------------------------------ *)
+
+(* the phases of a `go` (timed or not) whose flag gets slot N.  From PGoRaise on the go is
+   ACCEPTED: busy check, join and game check are passed *)
+Definition GoPh (N : nat) (t : bool) (s : state) : Prop :=
+  exited s = false /\
+  ( ((pc s = PGoLoad t \/ pc s = PGoJoin t \/ pc s = PGoNew t) /\
+     length (gos s) = N /\ game s = true /\ alive (sst (getg (gos s) (cur s))) = false)
+  \/ ((pc s = PGoLock t \/ pc s = PGoCheck t) /\ cur s = N /\ game s = true)
+  \/ ((pc s = PGoRaise t \/ (t = true /\ (pc s = PGoInfo \/ pc s = PGoTimer))) /\ cur s = N)
+  \/ (pc s = PGoSpawn /\ cur s = N /\ (t = true -> tst (getg (gos s) N) <> TNone))
+  \/ ((pc s = PGoUnlock \/ pc s = PIdle) /\ cur s = N /\ sst (getg (gos s) N) <> SNone /\
+      (t = true -> tst (getg (gos s) N) <> TNone)) ).
+
+Lemma GoPh_not_quit : forall N t s, GoPh N t s -> pc s <> PQuit.
+Proof.
+  intros N t s (_ & H) E. rewrite E in H.
+  repeat match goal with
+         | H : _ \/ _ |- _ => destruct H
+         | H : _ /\ _ |- _ => destruct H
+         end; discriminate.
+Qed.
+
+Lemma all_dead_in_data : forall s, reachable s -> in_data (pc s) = true ->
+  forall k, step s (LSearch k) = None.
+Proof.
+  intros s Hr Hd k. apply no_search_step.
+  destruct (lock_taken_after_join s k Hr Hd) as [E|E]; rewrite E; reflexivity.
+Qed.
+
+Lemma flag_down_when_dead : forall s, reachable s -> raised (pc s) = false ->
+  running (sst (getg (gos s) (cur s))) = false -> curflag s = false.
+Proof.
+  intros s Hr Hp Ha. get_inv s Hr.
+  destruct Hctl as (K1 & K2 & K3 & K4 & K5 & K6 & K7 & K8 & K9 & K10 & K11 & K12 & K13).
+  unfold curflag. destruct (flag (getg (gos s) (cur s))); auto.
+  destruct (K8 eq_refl); congruence.
+Qed.
+
+Lemma dead_not_running : forall x, alive x = false -> running x = false.
+Proof. destruct x; simpl; auto. Qed.
+
+Lemma GoPh_step : forall N t s l s', reachable s -> GoPh N t s -> engine l ->
+  step s l = Some s' -> GoPh N t s'.
+Proof.
+  intros N t s l s' Hr HP Hl Hstep.
+  pose proof (GoPh_not_quit N t s HP) as Hnq.
+  destruct HP as (Hex & Hph).
+  assert (Hex' : exited s' = false) by (eapply not_exited_after; eauto).
+  unfold GoPh. split; [exact Hex'|].
+  destruct l as [cm| |k|k].
+  - exfalso. apply (Hl cm); reflexivity.
+  - (* the stdin thread *)
+    get_inv s Hr. assert (Hlen : cur s < length (gos s)) by (destruct Hslot; auto).
+    destruct Hph as [(Hp & HN & Hg & Ha)|[(Hp & Hc & Hg)|[(Hp & Hc)|[(Hp & Hc & Ht)|(Hp & Hc & Hn & Ht)]]]].
+    + (* busy check, join, new flag *)
+      pose proof (flag_down_when_dead s Hr) as Hfd.
+      destruct Hctl as (K1 & K2 & K3 & K4 & K5 & K6 & K7 & K8 & K9 & K10 & K11 & K12 & K13).
+      destruct s as [p c gs m po gm h o pa ex]; simpl in *. subst ex gm.
+      destruct Hp as [Hp|[Hp|Hp]]; subst p.
+      * unfold curflag in Hfd; simpl in Hfd.
+        specialize (Hfd eq_refl (dead_not_running _ Ha)).
+        unfold step, main_step in Hstep; simpl in Hstep. unfold curflag in Hstep; simpl in Hstep.
+        rewrite Hfd in Hstep. inversion Hstep; subst s'; simpl. left. auto 10.
+      * main_compute Hstep.
+        -- left. auto 10.
+        -- discriminate.
+        -- left. auto 10.
+      * main_compute Hstep. right. left. auto.
+    + (* lock, game check *)
+      destruct s as [p c gs m po gm h o pa ex]; simpl in *. subst ex gm.
+      destruct Hp as [Hp|Hp]; subst p; main_compute Hstep.
+      * discriminate.
+      * right. left. auto.
+      * right. right. left. auto.
+    + (* raise, info, timer spawn *)
+      destruct s as [p c gs m po gm h o pa ex]; simpl in *. subst ex.
+      destruct Hp as [Hp|(Htt & [Hp|Hp])]; subst p.
+      * main_compute Hstep.
+        -- right. right. left. auto.
+        -- right. right. right. left. splits; auto. intros; discriminate.
+      * main_compute Hstep. right. right. left. auto.
+      * main_compute Hstep. right. right. right. left. splits; auto.
+        intros _. rewrite getg_upd_eq by auto. simpl. discriminate.
+    + (* search thread spawn *)
+      destruct s as [p c gs m po gm h o pa ex]; simpl in *. subst ex p.
+      main_compute Hstep. right. right. right. right.
+      rewrite getg_upd_eq by auto. simpl. splits; auto. discriminate.
+    + (* unlock, idle *)
+      destruct s as [p c gs m po gm h o pa ex]; simpl in *. subst ex.
+      destruct Hp as [Hp|Hp]; subst p; main_compute Hstep.
+      right. right. right. right. auto.
+  - (* the search thread *)
+    destruct (search_step_is_cur s k s' Hr Hstep) as [Hk Hal]. subst k.
+    destruct Hph as [(Hp & HN & Hg & Ha)|[(Hp & Hc & Hg)|[(Hp & Hc)|[(Hp & Hc & Ht)|(Hp & Hc & Hn & Ht)]]]].
+    + congruence.
+    + rewrite all_dead_in_data in Hstep; [discriminate|auto|].
+      destruct Hp as [Hp|Hp]; rewrite Hp; reflexivity.
+    + rewrite all_dead_in_data in Hstep; [discriminate|auto|].
+      destruct Hp as [Hp|(_ & [Hp|Hp])]; rewrite Hp; reflexivity.
+    + rewrite all_dead_in_data in Hstep; [discriminate|auto|]. rewrite Hp; reflexivity.
+    + destruct (search_frame _ _ _ Hstep) as (F1 & F2 & F3 & F4 & F5 & F6 & F7).
+      right. right. right. right. rewrite F1, F2, F6. splits; auto.
+      eapply step_keeps_spawned; eauto.
+  - (* a timer *)
+    destruct (timer_frame _ _ _ Hstep) as (F1 & F2 & F3 & F4 & F5 & F6 & F7 & F8 & F9 & F10).
+    rewrite F1, F2, F5, F8, !F9.
+    destruct Hph as [(Hp & HN & Hg & Ha)|[(Hp & Hc & Hg)|[(Hp & Hc)|[(Hp & Hc & Ht)|(Hp & Hc & Hn & Ht)]]]].
+    + left. auto.
+    + right. left. auto.
+    + right. right. left. auto.
+    + right. right. right. left. auto.
+    + right. right. right. right. auto 6.
+Qed.
+
+(* what a go phase has reached when the engine side has come to rest *)
+Lemma GoPh_end : forall N t s, reachable s -> GoPh N t s -> engine_stuck s ->
+  cur s = N /\ sst (getg (gos s) N) = SDone /\ In (EBestmove N) (out s) /\ pc s = PIdle /\
+  exited s = false /\ flag (getg (gos s) N) = false /\
+  (t = true -> tst (getg (gos s) N) = TFired).
+Proof.
+  intros N t s Hr (Hex & Hph) Hst.
+  pose proof (stuck_quiescent s Hr Hst) as Hq.
+  pose proof (quiescent_idle s Hq Hex) as Hidle.
+  destruct Hph as [(Hp & _)|[(Hp & _)|[(Hp & _)|[(Hp & _)|(Hp & Hc & Hn & Ht)]]]];
+    try (repeat match goal with
+                | H : _ \/ _ |- _ => destruct H
+                | H : _ /\ _ |- _ => destruct H
+                end; congruence).
+  pose proof (spawned_quiescent_done s N Hq Hex Hn) as Hd.
+  splits; auto.
+  - apply done_has_bestmove; auto.
+  - pose proof (flag_down_when_dead s Hr) as Hfd. unfold curflag in Hfd. rewrite Hc in Hfd.
+    apply Hfd; [rewrite Hidle; reflexivity | rewrite Hd; reflexivity].
+  - intros Htt. specialize (Ht Htt).
+    destruct Hq as [Hq|(_ & _ & Hall)]; [congruence|].
+    destruct (Hall N) as [_ Hns]. destruct (tst (getg (gos s) N)); congruence.
+Qed.
+
+(* an ACCEPTED go (the stdin thread is at `search_is_running.store(true)`, slot `cur s`),
+   without any further input: every maximal engine-side continuation prints the bestmove
+   of that go, whatever the timer does.  In the model the search itself can always end
+   (`SSearching -> SFinished`), so after section 1 the content of this theorem is that
+   nothing else blocks the answer: the stdin thread releases the mutex at the end of
+   command_go, the search thread gets it, and no join or lock is in the way. *)
+Theorem accepted_go_is_answered : forall s t ls s', reachable s -> exited s = false ->
+  pc s = PGoRaise t -> max_engine_run s ls s' ->
+  In (EBestmove (cur s)) (out s') /\ sst (getg (gos s') (cur s)) = SDone /\
+  cur s' = cur s /\ pc s' = PIdle /\ exited s' = false /\
+  flag (getg (gos s') (cur s)) = false /\
+  (t = true -> tst (getg (gos s') (cur s)) = TFired) /\
+  length ls <= measure s.
+Proof.
+  intros s t ls s' Hr Hex Hp [Hrun Hst].
+  assert (P0 : GoPh (cur s) t s).
+  { split; auto. right. right. left. auto. }
+  pose proof (engine_run_invariant _ (GoPh_step (cur s) t) ls s s' Hr P0 Hrun) as P'.
+  pose proof (engine_run_reachable _ _ _ Hr Hrun) as Hr'.
+  destruct (GoPh_end _ _ s' Hr' P' Hst) as (E1 & E2 & E3 & E4 & E5 & E6 & E7).
+  splits; auto. eapply no_livelock; eauto.
+Qed.
+
+Corollary timed_go_is_answered : forall s ls s', reachable s -> exited s = false ->
+  pc s = PGoRaise true -> max_engine_run s ls s' ->
+  In (EBestmove (cur s)) (out s') /\ tst (getg (gos s') (cur s)) = TFired /\
+  sst (getg (gos s') (cur s)) = SDone /\ pc s' = PIdle /\ exited s' = false.
+Proof.
+  intros s ls s' Hr Hex Hp Hm.
+  destruct (accepted_go_is_answered s true ls s' Hr Hex Hp Hm)
+    as (E1 & E2 & E3 & E4 & E5 & E6 & E7 & E8).
+  splits; auto.
+Qed.
+Print Assumptions accepted_go_is_answered.
+Print Assumptions timed_go_is_answered.
+
+(* the same from the input: the stdin thread is idle, a game is set up and no search thread
+   is alive.  Then `go` is accepted (no "busy", no "no game"), gets the NEW slot
+   `length (gos s)`, and every maximal engine-side continuation prints its bestmove *)
+Theorem go_is_answered : forall s t s1, reachable s -> exited s = false ->
+  pc s = PIdle -> game s = true -> alive (sst (getg (gos s) (cur s))) = false ->
+  step s (LInput (CGo t)) = Some s1 ->
+  ~ In (EBestmove (length (gos s))) (out s) /\
+  (forall ls s', engine_run s1 ls s' -> pc s' = PIdle ->
+     cur s' = length (gos s) /\ sst (getg (gos s') (cur s')) <> SNone) /\
+  (forall ls s', max_engine_run s1 ls s' ->
+     cur s' = length (gos s) /\ sst (getg (gos s') (cur s')) = SDone /\
+     In (EBestmove (length (gos s))) (out s') /\ pc s' = PIdle /\ exited s' = false /\
+     flag (getg (gos s') (cur s')) = false /\
+     (t = true -> tst (getg (gos s') (cur s')) = TFired) /\
+     length ls <= measure s1).
+Proof.
+  intros s t s1 Hr Hex Hp Hg Ha Hs1.
+  pose proof (reachable_step _ _ _ Hr Hs1) as Hr1.
+  assert (P1 : GoPh (length (gos s)) t s1).
+  { unfold step, input_step in Hs1. rewrite Hex, Hp in Hs1. inversion Hs1; subst s1; simpl.
+    unfold GoPh; simpl. split; [exact Hex|]. left. auto 8. }
+  split; [|split].
+  - intros Hin. apply cnt_In in Hin. rewrite bestmove_count_exact in Hin by auto.
+    rewrite getg_overflow in Hin by lia. simpl in Hin. lia.
+  - intros ls s' Hrun Hidle.
+    pose proof (engine_run_invariant _ (GoPh_step _ t) ls s1 s' Hr1 P1 Hrun) as (_ & Hph).
+    destruct Hph as [(Hq & _)|[(Hq & _)|[(Hq & _)|[(Hq & _)|(Hq & Hc & Hn & Ht)]]]];
+      try (repeat match goal with
+                  | H : _ \/ _ |- _ => destruct H
+                  | H : _ /\ _ |- _ => destruct H
+                  end; congruence).
+    rewrite Hc. auto.
+  - intros ls s' [Hrun Hst].
+    pose proof (engine_run_invariant _ (GoPh_step _ t) ls s1 s' Hr1 P1 Hrun) as P'.
+    pose proof (engine_run_reachable _ _ _ Hr1 Hrun) as Hr'.
+    destruct (GoPh_end _ _ s' Hr' P' Hst) as (E1 & E2 & E3 & E4 & E5 & E6 & E7).
+    rewrite E1. splits; auto. eapply no_livelock; eauto.
+Qed.
+Print Assumptions go_is_answered.
+
+(* ------------------------------------------------------------------ *)
+(* 4. position + go after a bestmove are honoured                      *)
+(* ------------------------------------------------------------------ *)
+
+Lemma search_keeps_printed : forall s k s' j, step s (LSearch k) = Some s' ->
+  printed (sst (getg (gos s) j)) = true -> printed (sst (getg (gos s') j)) = true.
+Proof.
+  intros [p c gs m po gm h o pa ex] k s' j Hstep. unfold step in Hstep; simpl in *.
+  destruct ex; [discriminate|].
+  unfold search_step in Hstep; simpl in Hstep.
+  unfold_step Hstep; break_in Hstep; inversion Hstep; subst s'; clear Hstep; simpl; auto.
+  all: upd_cases; auto; simpl; try congruence.
+  all: intros Hpr; match goal with H : sst _ = _ |- _ => rewrite H in Hpr end; discriminate.
+Qed.
+
+(* the phases of `position ...` (leaving a game) read after the bestmove of the current go
+   c0 was printed *)
+Definition PosPh (c0 N : nat) (s : state) : Prop :=
+  exited s = false /\ cur s = c0 /\ length (gos s) = N /\
+  printed (sst (getg (gos s) c0)) = true /\
+  (pc s = PPosLoad true \/ pc s = PPosJoin true \/ pc s = PPosLock true \/
+   pc s = PPosSet true \/ (pc s = PPosUnlock /\ game s = true) \/
+   (pc s = PIdle /\ game s = true /\ sst (getg (gos s) c0) = SDone)).
+
+Lemma PosPh_not_quit : forall c0 N s, PosPh c0 N s -> pc s <> PQuit.
+Proof.
+  intros c0 N s (_ & _ & _ & _ & H) E. rewrite E in H.
+  repeat match goal with
+         | H : _ \/ _ |- _ => destruct H
+         | H : _ /\ _ |- _ => destruct H
+         end; discriminate.
+Qed.
+
+Lemma printed_not_running : forall x, printed x = true -> running x = false.
+Proof. destruct x; simpl; auto; discriminate. Qed.
+
+Lemma PosPh_step : forall c0 N s l s', reachable s -> PosPh c0 N s -> engine l ->
+  step s l = Some s' -> PosPh c0 N s'.
+Proof.
+  intros c0 N s l s' Hr HP Hl Hstep.
+  pose proof (PosPh_not_quit c0 N s HP) as Hnq.
+  destruct HP as (Hex & Hc & HN & Hpr & Hph).
+  assert (Hex' : exited s' = false) by (eapply not_exited_after; eauto).
+  destruct l as [cm| |k|k].
+  - exfalso. apply (Hl cm); reflexivity.
+  - (* the stdin thread *)
+    pose proof (flag_down_when_dead s Hr) as Hfd.
+    pose proof (lock_taken_after_join s c0 Hr) as Hlk.
+    unfold PosPh. split; [exact Hex'|].
+    destruct s as [p c gs m po gm h o pa ex]; simpl in *. subst ex c.
+    destruct Hph as [Hp|[Hp|[Hp|[Hp|[(Hp & Hg)|(Hp & Hg & Hd)]]]]]; subst p.
+    + unfold curflag in Hfd; simpl in Hfd.
+      specialize (Hfd eq_refl (printed_not_running _ Hpr)).
+      unfold step, main_step in Hstep; simpl in Hstep. unfold curflag in Hstep; simpl in Hstep.
+      rewrite Hfd in Hstep. inversion Hstep; subst s'; simpl. splits; auto.
+    + main_compute Hstep; try discriminate; splits; auto.
+    + main_compute Hstep; try discriminate; splits; auto.
+    + main_compute Hstep. splits; auto 8.
+    + main_compute Hstep. splits; auto. right. right. right. right. right. splits; auto.
+      destruct (Hlk eq_refl) as [E|E]; auto. rewrite E in Hpr. discriminate.
+    + main_compute Hstep.
+  - (* the search thread: only its last step (unlock) is left *)
+    destruct (search_step_is_cur s k s' Hr Hstep) as [Hk Hal]. subst k.
+    pose proof (search_keeps_printed _ _ _ c0 Hstep Hpr) as Hpr'.
+    destruct (search_frame _ _ _ Hstep) as (F1 & F2 & F3 & F4 & F5 & F6 & F7).
+    unfold PosPh. rewrite F1, F2, F5. splits; auto.
+    destruct Hph as [Hp|[Hp|[Hp|[Hp|[(Hp & Hg)|(Hp & Hg & Hd)]]]]].
+    + auto.
+    + auto.
+    + exfalso. rewrite all_dead_in_data in Hstep; [discriminate|auto|]. rewrite Hp; reflexivity.
+    + exfalso. rewrite all_dead_in_data in Hstep; [discriminate|auto|]. rewrite Hp; reflexivity.
+    + exfalso. rewrite all_dead_in_data in Hstep; [discriminate|auto|]. rewrite Hp; reflexivity.
+    + exfalso. rewrite Hc, Hd in Hal. discriminate.
+  - (* a timer *)
+    destruct (timer_frame _ _ _ Hstep) as (F1 & F2 & F3 & F4 & F5 & F6 & F7 & F8 & F9 & F10).
+    unfold PosPh. rewrite F1, F2, F5, F8, !F9. splits; auto.
+Qed.
+
+(* the GUI has seen the bestmove of the last go and sends `position ...` (a legal one: a
+   game is left) and, once that line is consumed, `go`.  Whatever the engine-side threads do
+   in between (every interleaving):
+   - `position` is not refused and every maximal continuation of it ends with the stdin
+     thread idle and a game set up;
+   - `go` is not refused: whenever the stdin thread is idle again, a NEW search thread has
+     been spawned, in the fresh slot `length (gos s)`;
+   - every maximal continuation prints the bestmove of that new go. *)
+Theorem go_after_bestmove_accepted : forall s t s1, reachable s -> exited s = false ->
+  pc s = PIdle -> In (EBestmove (cur s)) (out s) ->
+  step s (LInput (CPosition true)) = Some s1 ->
+  cur s < length (gos s) /\ ~ In (EBestmove (length (gos s))) (out s) /\
+  (forall ls s2, max_engine_run s1 ls s2 -> pc s2 = PIdle /\ exited s2 = false) /\
+  (forall ls1 s2 s3, engine_run s1 ls1 s2 -> pc s2 = PIdle ->
+     step s2 (LInput (CGo t)) = Some s3 ->
+     game s2 = true /\
+     (forall ls2 s4, engine_run s3 ls2 s4 -> pc s4 = PIdle ->
+        cur s4 = length (gos s) /\ sst (getg (gos s4) (cur s4)) <> SNone) /\
+     (forall ls2 s4, max_engine_run s3 ls2 s4 ->
+        cur s4 = length (gos s) /\ sst (getg (gos s4) (cur s4)) = SDone /\
+        In (EBestmove (length (gos s))) (out s4) /\ pc s4 = PIdle /\ exited s4 = false /\
+        length ls2 <= measure s3)).
+Proof.
+  intros s t s1 Hr Hex Hp Hin Hs1.
+  pose proof (reachable_step _ _ _ Hr Hs1) as Hr1.
+  assert (Hlen : cur s < length (gos s)).
+  { get_inv s Hr. destruct Hslot; auto. }
+  assert (Hpr : printed (sst (getg (gos s) (cur s))) = true).
+  { apply cnt_In in Hin. rewrite bestmove_count_exact in Hin by auto.
+    destruct (printed _); simpl in Hin; auto; lia. }
+  assert (P1 : PosPh (cur s) (length (gos s)) s1).
+  { unfold step, input_step in Hs1. rewrite Hex, Hp in Hs1. inversion Hs1; subst s1; simpl.
+    unfold PosPh; simpl. splits; auto. }
+  split; [exact Hlen|split; [|split]].
+  - intros Hin2. apply cnt_In in Hin2. rewrite bestmove_count_exact in Hin2 by auto.
+    rewrite getg_overflow in Hin2 by lia. simpl in Hin2. lia.
+  - intros ls s2 [Hrun Hst].
+    pose proof (engine_run_invariant _ (PosPh_step _ _) ls s1 s2 Hr1 P1 Hrun) as (Hx & _).
+    pose proof (engine_run_reachable _ _ _ Hr1 Hrun) as Hr2.
+    split; auto. apply quiescent_idle; auto. apply stuck_quiescent; auto.
+  - intros ls1 s2 s3 Hrun1 Hidle Hs3.
+    pose proof (engine_run_invariant _ (PosPh_step _ _) ls1 s1 s2 Hr1 P1 Hrun1)
+      as (Hx2 & Hc2 & HN2 & Hpr2 & Hph2).
+    pose proof (engine_run_reachable _ _ _ Hr1 Hrun1) as Hr2.
+    destruct Hph2 as [Hq|[Hq|[Hq|[Hq|[(Hq & _)|(_ & Hg2 & Hd2)]]]]]; try congruence.
+    assert (Ha2 : alive (sst (getg (gos s2) (cur s2))) = false).
+    { rewrite Hc2, Hd2. reflexivity. }
+    destruct (go_is_answered s2 t s3 Hr2 Hx2 Hidle Hg2 Ha2 Hs3) as (_ & G1 & G2).
+    rewrite HN2 in *.
+    split; [exact Hg2|split].
+    + exact G1.
+    + intros ls2 s4 Hm. destruct (G2 ls2 s4 Hm) as (E1 & E2 & E3 & E4 & E5 & E6 & E7 & E8).
+      splits; auto.
+Qed.
+Print Assumptions go_after_bestmove_accepted.
